@@ -5,6 +5,7 @@ from harness import res_common as rc
 
 def run(ck):
     rc.run_property(ck, "mask_C04", rc.oracle_C04, fixed=rc.FIXED_HISTORIES)
+    ck.run_fixed({"failed_generation_with_waiters": "C04:factory-called-again-after-failed-generation"})
 
 
 def replay(ck, obj):
